@@ -1,16 +1,110 @@
-"""Executable oracle for C27: call histories of calculate_component_costs on real Specs."""
-import os, random, tempfile
+"""Executable oracle for C27: call histories of calculate_component_costs on real Specs.
+
+Family (see BOUND below):
+  A. (original family) random flat architectures with explicit numbers, histories of 2-3 calls on the
+     returned spec, all kinds or random flag subsets.
+  B. exhaustive core: an explicit architecture under every history (F1, F2, F1) over all 16 flag subsets
+     (thorough: every (F1, F2, F3)) and a composite architecture (explicit + model-backed + mixed components
+     under a Container, two-Einsum workload) under (F1, F2, F1) over 8 subsets (thorough: all 16), so every
+     "computed, switched off, requested again" pattern occurs.
+  C. seeded random histories of 1-4 calls over random architectures whose components take their costs
+     from explicit numbers, from a hwcomponents model (component_class, value omitted) or from both, with
+     non-unit scale factors / n_parallel_instances, 0 / 2 / 3 Einsums; every call picks its target (last
+     returned spec, the original spec, any earlier returned spec), a copy mode (none, copy.copy,
+     copy.deepcopy, model_copy, model_copy(deep=True)), a flag subset and an Einsum name.
+"""
+import copy, itertools, math, os, random, tempfile
+
+KINDS = ("area", "energy", "throughput", "leak")
+ALL = dict(area=True, energy=True, throughput=True, leak=True)
+CLASSES = {}  # no open known-finding class for C27 (F6 is repaired)
+
+# hwcomponents models that load in this sandbox (CACTI-backed ones such as SRAM / SmartBufferSRAM and the
+# NeuroSim ones do not); Dummy takes the `_is_dummy` path (0 / inf) and is scaled like the others
+MEM_MODELS = [("RaaamEDRAM", {}), ("AladdinRegister", {}), ("JiaShiftAdd", {}), ("AladdinCounter", {}), ("Dummy", {})]
+CMP_MODELS = [("IntMAC", {"multiplier_width": 8, "adder_width": 16}), ("IntMAC", {"multiplier_width": 4, "adder_width": 8}), ("Dummy", {})]
+COPY_MODES = ("none", "copy", "deepcopy", "model_copy", "model_copy_deep")
+
+BOUND = ("A: 25 (quick) / 250 (thorough) random flat architectures (1-3 memories + compute, explicit numbers), histories of 2-3 calls; "
+         "B (exhaustive core): an explicit architecture (Main, Container PE x2 [Buf x2, MAC x4]) under all 256 flag histories (F1, F2, F1) over the 16 flag "
+         "subsets (thorough: all 4096 (F1, F2, F3)), and a composite architecture (Main explicit, PE x2 [Buf RaaamEDRAM, Reg JiaShiftAdd mixed, MAC IntMAC], "
+         "2 Einsums) under the 64 histories (F1, F2, F1) over 8 subsets {all, one kind off, area only, energy only, none} (thorough: all 256 (F1, F2, F1) "
+         "and 240 (F1, F2, F2)); "
+         "C: 150 (quick) / 1500 (thorough) seeded random histories of 1-4 calls, architectures of 1-3 memories + compute (+ optional Container), "
+         "each component explicit / model-backed / mixed (models: RaaamEDRAM, AladdinRegister, JiaShiftAdd, AladdinCounter, IntMAC, Dummy), "
+         "scale factors and n_parallel_instances from {0.5, 1, 2, 3, 4, 5, 7}, workloads of 0 / 2 / 3 Einsums, targets {last, original, earlier returned}, "
+         "5 copy modes, 16 flag subsets, Einsum names {None, each Einsum}")
+RULE = ("The real Spec.calculate_component_costs is called along a history of calls on real Specs parsed from YAML. The oracle tracks, per spec object, which cost "
+        "kinds (area, leak, energy, throughput) earlier calls have computed. Required after every call on a target T returning R: (1) for every component and "
+        "every kind already computed in T, R has exactly T's value from before the call (per-instance area, leak_power, per-action energy, per-action "
+        "throughput; total_area / total_leak_power are not compared) -- also when the kind is switched off in this call and requested again later, when T "
+        "is a copy (copy.copy / deepcopy / model_copy / model_copy(deep=True)) of a costed spec, and when the call names another Einsum than the call "
+        "that computed the kind: only architectures whose attributes do not depend on the workload are used, so a changed einsum_name must not change any "
+        "value; (2) T's own computed values are not altered by the call; (3) a kind computed for the first time by this call (late in a history, after "
+        "copies, on the original spec again) has the value a direct calculation gives: explicit number, or the model's value obtained once from an unscaled "
+        "one-component spec, times the scale factors and n_parallel_instances written out in the oracle (rel. tol. 1e-9); (4) no call raises. "
+        "A call with every flag off must return the spec unchanged.")
 
 
-def _yaml(rnd, comps):
-    lines = ["arch:", "  nodes:"]
-    for c in comps:
+# ---------------------------------------------------------------------------------------------- yaml
+def _fmt(v):
+    return "inf" if v == math.inf else repr(v) if isinstance(v, float) else str(v)
+
+
+def _yaml(rnd, comps, container=None, einsums=0):
+    """comps: list of component dicts (see _rand_comps / _rand_comps2); values that are None are omitted
+    (they then come from the component model named by 'cls')"""
+    lines = ["arch:"]
+    if any(c.get("cls") for c in comps):
+        lines.append("  extra_attributes_for_all_component_models: {tech_node: 16e-9}")
+    lines.append("  nodes:")
+    for i, c in enumerate(comps):
         kind, name, f = c["kind"], c["name"], c
-        acts = ", ".join(f"{{name: {a}, energy: {f['energy'][a]}, throughput: {f['thr'][a]}, energy_scale: {f['aes'][a]}, throughput_scale: {f['ats'][a]}}}" for a in f["energy"])
-        extra = "size: inf, " if kind == "Memory" else ""
+        if container and container["before"] == i:
+            lines.append(f"  - !Container {{name: {container['name']}, spatial: [{{name: Y, fanout: {container['fan']}}}]}}")
+        acts = []
+        for a in f["energy"]:
+            parts = [f"name: {a}"]
+            if f["energy"][a] is not None:
+                parts.append(f"energy: {_fmt(f['energy'][a])}")
+            if f["thr"][a] is not None:
+                parts.append(f"throughput: {_fmt(f['thr'][a])}")
+            parts += [f"energy_scale: {f['aes'][a]}", f"throughput_scale: {f['ats'][a]}"]
+            acts.append("{" + ", ".join(parts) + "}")
+        acts = ", ".join(acts)
+        extra = ""
+        if kind == "Memory":
+            extra = "size: 1024, " if f.get("cls") else "size: inf, "
+        if f.get("cls"):
+            extra += f"component_class: {f['cls']}, "
+            if f.get("attrs"):
+                extra += "extra_attributes_for_component_model: {" + ", ".join(f"{k}: {v}" for k, v in f["attrs"].items()) + "}, "
+        if f["area"] is not None:
+            extra += f"area: {_fmt(f['area'])}, "
+        if f["leak"] is not None:
+            extra += f"leak_power: {_fmt(f['leak'])}, "
         sp = f", spatial: [{{name: X, fanout: {f['fan']}}}]" if f["fan"] > 1 else ""
-        lines.append(f"  - !{kind} {{name: {name}, {extra}area: {f['area']}, leak_power: {f['leak']}, area_scale: {f['as']}, leak_power_scale: {f['ls']}, energy_scale: {f['es']}, throughput_scale: {f['ts']}, n_parallel_instances: {f['np']}, actions: [{acts}]{sp}}}")
+        lines.append(f"  - !{kind} {{name: {name}, {extra}area_scale: {f['as']}, leak_power_scale: {f['ls']}, energy_scale: {f['es']}, throughput_scale: {f['ts']}, n_parallel_instances: {f['np']}, actions: [{acts}]{sp}}}")
+    if einsums:
+        lines += ["workload:", "  iteration_space_shape:", "    m: 0 <= m < 4"]
+        lines += [f"    n{i}: 0 <= n{i} < {2 + i}" for i in range(einsums + 1)]
+        lines += ["  bits_per_value: {All: 8}", "  einsums:"]
+        for i in range(einsums):
+            lines += [f"  - name: E{i}", "    tensor_accesses:", f"    - {{name: T{i}, projection: [m, n{i}]}}", f"    - {{name: W{i}, projection: [n{i}, n{i + 1}]}}",
+                      f"    - {{name: T{i + 1}, projection: [m, n{i + 1}], output: True}}"]
     return "\n".join(lines)
+
+
+def _parse(y):
+    from accelforge.frontend.spec import Spec
+
+    with tempfile.NamedTemporaryFile("w", suffix=".yaml", delete=False) as f:
+        f.write(y)
+        path = f.name
+    try:
+        return Spec.from_yaml(path)
+    finally:
+        os.unlink(path)
 
 
 def _rand_comps(rnd):
@@ -27,53 +121,158 @@ def _rand_comps(rnd):
     return comps
 
 
-def _snapshot(spec, names):
+def _rand_comps2(rnd):
+    """like _rand_comps, each component explicit / model-backed / mixed"""
+    comps = _rand_comps(rnd)
+    for c in comps:
+        src = rnd.choice(["explicit", "model", "model", "mixed"])
+        c["src"] = src
+        if src == "explicit":
+            continue
+        c["cls"], c["attrs"] = rnd.choice(MEM_MODELS if c["kind"] == "Memory" else CMP_MODELS)
+        drop = (lambda: True) if src == "model" else (lambda: rnd.random() < 0.5)
+        if drop():
+            c["area"] = None
+        if drop():
+            c["leak"] = None
+        for a in c["energy"]:
+            if drop():
+                c["energy"][a] = None
+            if drop():
+                c["thr"][a] = None
+    return comps
+
+
+# ---------------------------------------------------------------------------------------------- reference values
+_RAW = {}
+
+
+def _raw(kind, cls, attrs):
+    """the model's own values: one real calculation of an unscaled one-component spec (cached)"""
+    key = (kind, cls, tuple(sorted(attrs.items())))
+    if key not in _RAW:
+        acts = ["read", "write"] if kind == "Memory" else ["compute"]
+        one = {a: 1 for a in acts}
+        none = {a: None for a in acts}
+        c = dict(kind=kind, name="X", cls=cls, attrs=attrs, area=None, leak=None, fan=1, **{"as": 1, "ls": 1, "es": 1, "ts": 1, "np": 1}, energy=dict(none), thr=dict(none), aes=one, ats=one)
+        comps = [c]
+        if kind == "Memory":
+            comps.append(dict(kind="Compute", name="C", area=1, leak=1, fan=1, **{"as": 1, "ls": 1, "es": 1, "ts": 1, "np": 1}, energy={"compute": 1}, thr={"compute": 1}, aes={"compute": 1}, ats={"compute": 1}))
+        s = _parse(_yaml(None, comps)).calculate_component_costs()
+        x = s.arch.find("X")
+        _RAW[key] = dict(area=x.area, leak=x.leak_power, energy={a.name: a.energy for a in x.actions}, thr={a.name: a.throughput for a in x.actions})
+    return _RAW[key]
+
+
+def _reference(comps):
+    """what one direct calculation gives, written out: value x scale factors x n_parallel_instances
+    (area, leak power and throughput count the parallel instances; energy per action does not)"""
+    ref = {}
+    for c in comps:
+        raw = _raw(c["kind"], c["cls"], c["attrs"]) if c.get("cls") else None
+        pick = lambda v, r: v if v is not None else r
+        area = pick(c["area"], raw and raw["area"]) * c["as"] * c["np"]
+        leak = pick(c["leak"], raw and raw["leak"]) * c["ls"] * c["np"]
+        en = {a: pick(c["energy"][a], raw and raw["energy"][a]) * c["es"] * c["aes"][a] for a in c["energy"]}
+        th = {a: pick(c["thr"][a], raw and raw["thr"][a]) * c["ts"] * c["ats"][a] * c["np"] for a in c["thr"]}
+        ref[c["name"]] = dict(area=area, leak=leak, energy=en, throughput=th)
+    return ref
+
+
+def _close(a, b):
+    if a is None or b is None:
+        return a is b
+    if a == b:
+        return True
+    try:
+        return abs(a - b) <= 1e-9 * max(abs(a), abs(b))
+    except TypeError:
+        return False
+
+
+def _snap(spec, names):
     out = {}
     for n in names:
         c = spec.arch.find(n)
-        out[n] = (c.area, c.leak_power, c.total_area, c.total_leak_power, tuple((a.name, a.energy, a.throughput) for a in c.actions))
+        out[n] = dict(area=c.area, leak=c.leak_power, energy={a.name: a.energy for a in c.actions}, throughput={a.name: a.throughput for a in c.actions})
     return out
 
 
-def _case(comps, history):
-    """history: list of flag dicts; after a kind has been calculated once, later calls must not change it"""
-    from accelforge.frontend.spec import Spec
+def _copy_of(s, mode):
+    if mode == "copy":
+        return copy.copy(s)
+    if mode == "deepcopy":
+        return copy.deepcopy(s)
+    if mode == "model_copy":
+        return s.model_copy()
+    if mode == "model_copy_deep":
+        return s.model_copy(deep=True)
+    return s
 
-    y = _yaml(None, comps)
-    with tempfile.NamedTemporaryFile("w", suffix=".yaml", delete=False) as f:
-        f.write(y)
-        path = f.name
-    try:
-        s = Spec.from_yaml(path)
-    finally:
-        os.unlink(path)
+
+# ---------------------------------------------------------------------------------------------- one history
+def _history(desc, history):
+    """desc: {comps, container, einsums}; history: list of steps {on: index into the list of specs so far (0 = the
+    original, k = the spec returned by call k), copy: mode, flags: {kind: bool}, einsum: None | name}.
+    Returns (ok, info, number of real calls)"""
+    comps = desc["comps"]
+    y = _yaml(None, comps, desc.get("container"), desc.get("einsums", 0))
     names = [c["name"] for c in comps]
-    done = set()
-    prev = None
-    for step, flags in enumerate(history):
-        s = s.calculate_component_costs(**flags)
-        cur = _snapshot(s, names)
-        if prev is not None:
-            for n in names:
-                a0, l0, ta0, tl0, acts0 = prev[n]
-                a1, l1, ta1, tl1, acts1 = cur[n]
-                bad = []
-                if "area" in done and (a0, ta0) != (a1, ta1):
-                    bad.append(("area", (a0, ta0), (a1, ta1)))
-                if "leak" in done and (l0, tl0) != (l1, tl1):
-                    bad.append(("leak_power", (l0, tl0), (l1, tl1)))
-                if "energy" in done and [(x[0], x[1]) for x in acts0] != [(x[0], x[1]) for x in acts1]:
-                    bad.append(("energy", acts0, acts1))
-                if "throughput" in done and [(x[0], x[2]) for x in acts0] != [(x[0], x[2]) for x in acts1]:
-                    bad.append(("throughput", acts0, acts1))
-                if bad:
-                    return False, {"yaml": y, "history": history, "call": step + 1, "component": n, "observed": str(bad[0][2]), "required": f"{bad[0][0]} unchanged: {bad[0][1]}"}
-        done |= {k for k, v in flags.items() if v}
-        prev = cur
-    return True, None
+    calls = 0
+
+    def fail(step, comp, what, observed, required):
+        return False, {"yaml": y, "history": history, "call": step + 1, "component": comp, "what": what, "observed": str(observed), "required": str(required)}, calls
+
+    try:
+        ref = _reference(comps)
+        specs = [_parse(y)]
+    except Exception as e:  # the family only contains well-formed specs whose models load
+        return fail(-1, None, "setup", f"{type(e).__name__}: {str(e)[:300]}", "the spec parses and its models load")
+    done = [set()]
+    for step, st in enumerate(history):
+        flags = st["flags"]
+        T = specs[st["on"]]
+        dT = done[st["on"]]
+        try:
+            if st.get("copy", "none") != "none":
+                before_copy = _snap(T, names)
+                T = _copy_of(T, st["copy"])
+                if _snap(T, names) != before_copy:
+                    return fail(step, None, f"{st['copy']} of the spec", _snap(T, names), before_copy)
+            pre = _snap(T, names)
+            calls += 1
+            R = T.calculate_component_costs(einsum_name=st.get("einsum"), **flags)
+            post = _snap(T, names)
+            cur = _snap(R, names)
+        except Exception as e:
+            return fail(step, None, "call", f"{type(e).__name__}: {str(e)[:300]}", "no exception")
+        on = {k for k in KINDS if flags[k]}
+        if not on and R is not T:
+            return fail(step, None, "all flags off", "a different object", "the spec itself, unchanged")
+        for n in names:
+            for k in KINDS:
+                if k in dT:
+                    if cur[n][k] != pre[n][k]:
+                        return fail(step, n, k, cur[n][k], f"unchanged (computed by an earlier call): {pre[n][k]}")
+                    if post[n][k] != pre[n][k]:
+                        return fail(step, n, k + " of the spec the call was made on", post[n][k], f"unchanged: {pre[n][k]}")
+                elif k in on:
+                    want, got = ref[n][k], cur[n][k]
+                    same = all(_close(got.get(a), want[a]) for a in want) if isinstance(want, dict) else _close(got, want)
+                    if not same:
+                        return fail(step, n, k + " (first computed by this call)", got, f"value of a direct calculation: {want}")
+        specs.append(R)
+        done.append(set(dT) | on)
+    return True, None, calls
 
 
-ALL = dict(area=True, energy=True, throughput=True, leak=True)
+# ---------------------------------------------------------------------------------------------- original family (A)
+def _case(comps, history):
+    """history: list of flag dicts, every call on the spec returned by the previous one"""
+    ok, info, _ = _history({"comps": comps}, [{"on": i, "copy": "none", "flags": f, "einsum": None} for i, f in enumerate(history)])
+    return ok, info
+
+
 WITNESS_F6 = [dict(kind="Memory", name="Main", area=10, leak=1, fan=1, **{"as": 2, "ls": 3, "es": 5, "ts": 7, "np": 2},
                    energy={"read": 1, "write": 1}, thr={"read": 1, "write": 1}, aes={"read": 1, "write": 1}, ats={"read": 1, "write": 1}),
               dict(kind="Compute", name="MAC", area=1, leak=0, fan=1, **{"as": 1, "ls": 1, "es": 1, "ts": 1, "np": 1},
@@ -102,22 +301,158 @@ def _sweep(rnd, n):
     return n, len(seen), None
 
 
-def replay(p):
+# ---------------------------------------------------------------------------------------------- exhaustive core (B)
+def _core_desc(explicit=False):
+    u2 = {"read": 1, "write": 1}
+    if explicit:
+        comps = [
+            dict(WITNESS_F6[0]),
+            dict(kind="Memory", name="Buf", area=2.5, leak=3, fan=2, **{"as": 2, "ls": 3, "es": 5, "ts": 0.5, "np": 2},
+                 energy={"read": 2.5, "write": 0}, thr={"read": 8, "write": 2}, aes={"read": 3, "write": 1}, ats={"read": 1, "write": 7}),
+            dict(kind="Compute", name="MAC", area=1, leak=1, fan=4, **{"as": 2, "ls": 7, "es": 5, "ts": 0.5, "np": 3},
+                 energy={"compute": 2.5}, thr={"compute": 2}, aes={"compute": 2}, ats={"compute": 3}),
+        ]
+        return {"comps": comps, "container": {"before": 1, "name": "PE", "fan": 2}, "einsums": 0}
+    comps = [
+        dict(WITNESS_F6[0]),
+        dict(kind="Memory", name="Buf", cls="RaaamEDRAM", attrs={}, area=None, leak=None, fan=2, **{"as": 2, "ls": 3, "es": 5, "ts": 0.5, "np": 2},
+             energy={"read": None, "write": None}, thr={"read": None, "write": None}, aes={"read": 3, "write": 1}, ats={"read": 1, "write": 7}),
+        dict(kind="Memory", name="Reg", cls="JiaShiftAdd", attrs={}, area=2.5, leak=None, fan=1, **{"as": 3, "ls": 2, "es": 1, "ts": 2, "np": 4},
+             energy={"read": 2.5, "write": None}, thr={"read": None, "write": 8}, aes={"read": 2, "write": 5}, ats=dict(u2)),
+        dict(kind="Compute", name="MAC", cls="IntMAC", attrs={"multiplier_width": 8, "adder_width": 16}, area=None, leak=None, fan=4, **{"as": 2, "ls": 7, "es": 5, "ts": 0.5, "np": 3},
+             energy={"compute": None}, thr={"compute": None}, aes={"compute": 2}, ats={"compute": 3}),
+    ]
+    return {"comps": comps, "container": {"before": 1, "name": "PE", "fan": 2}, "einsums": 2}
+
+
+SUBSETS = [dict(zip(KINDS, bits)) for bits in itertools.product([True, False], repeat=4)]  # ALL first, all-off last
+# ALL, each kind switched off, area only, energy only, all off
+SUBSETS8 = [ALL] + [{**ALL, k: False} for k in KINDS] + [{x: x == k for x in KINDS} for k in ("area", "energy")] + [SUBSETS[-1]]
+
+
+def _core(thorough):
+    """every history is run on a fresh parse of the architecture"""
+    ev = cases = 0
+    aba = lambda S: [(a, b, a) for a in S for b in S]
+    plan = [(_core_desc(True), itertools.product(SUBSETS, repeat=3) if thorough else aba(SUBSETS)),
+            (_core_desc(False), aba(SUBSETS) + [(a, b, b) for a in SUBSETS for b in SUBSETS if a != b] if thorough else aba(SUBSETS8))]
+    for desc, hists in plan:
+        for hist in hists:
+            ok, info, calls = _history(desc, [{"on": i, "copy": "none", "flags": f, "einsum": None} for i, f in enumerate(hist)])
+            ev += calls
+            cases += 1
+            if not ok:
+                return ev, cases, info
+    return ev, cases, None
+
+
+# ---------------------------------------------------------------------------------------------- random histories (C)
+def _rand_history(rnd, einsums):
+    L = rnd.choice([1, 2, 3, 3, 4, 4])
+    names = [None] + [f"E{i}" for i in range(einsums)]
+    hist = []
+    for i in range(L):
+        r = rnd.random()
+        on = i if r < 0.6 else 0 if r < 0.8 else rnd.randint(0, i)
+        r = rnd.random()
+        flags = dict(ALL) if r < 0.35 else rnd.choice(SUBSETS) if r < 0.45 else {k: rnd.random() < 0.6 for k in KINDS}
+        hist.append({"on": on, "copy": rnd.choice(COPY_MODES) if rnd.random() < 0.45 else "none", "flags": flags, "einsum": rnd.choice(names)})
+    return hist
+
+
+# fixed histories run on every random architecture class (round-robin), so each pattern named in the property's
+# strengthening occurs whatever the seed
+def _fixed_histories(einsums):
+    e = [None] + [f"E{i}" for i in range(einsums)]
+    off = lambda k: {**ALL, k: False}
+    only = lambda k: {x: x == k for x in KINDS}
+    H = lambda *steps: [{"on": on, "copy": cp, "flags": fl, "einsum": e[en % len(e)]} for on, cp, fl, en in steps]
+    out = []
+    for k in KINDS:
+        out.append(H((0, "none", ALL, 0), (1, "none", off(k), 0), (2, "none", ALL, 0)))  # computed, switched off, requested again
+        out.append(H((0, "none", only(k), 0), (1, "none", off(k), 1), (2, "none", ALL, 2), (3, "none", only(k), 1)))
+    for cp in COPY_MODES[1:]:
+        out.append(H((0, "none", ALL, 0), (1, cp, ALL, 0), (2, cp, ALL, 0)))
+        out.append(H((0, "none", only("area"), 0), (1, cp, only("energy"), 1), (2, cp, ALL, 2), (1, cp, ALL, 0)))
+    out.append(H((0, "none", ALL, 0), (1, "none", ALL, 1), (2, "none", ALL, 2), (0, "none", ALL, 1)))  # Einsum changes; original again
+    out.append(H((0, "none", ALL, 1), (0, "none", ALL, 2), (0, "none", ALL, 0), (1, "none", ALL, 2)))  # original three times, then the first result
+    out.append(H((0, "none", only("throughput"), 2), (1, "none", only("leak"), 1), (2, "none", ALL, 0), (3, "deepcopy", ALL, 2)))
+    return out
+
+
+def _random(rnd, n):
+    ev = 0
+    seen = set()
+    samples = []
+    for k in range(n):
+        comps = _rand_comps2(rnd)
+        einsums = rnd.choice([0, 2, 2, 3])
+        container = {"before": rnd.randint(0, len(comps) - 1), "name": "PE", "fan": rnd.choice([2, 3])} if rnd.random() < 0.4 else None
+        desc = {"comps": comps, "container": container, "einsums": einsums}
+        if k % 3 == 2:
+            fx = _fixed_histories(einsums)
+            hist = fx[(k // 3) % len(fx)]
+        else:
+            hist = _rand_history(rnd, einsums)
+        seen.add(repr((desc, hist)))
+        if len(samples) < 6 and k % 7 == 0:
+            samples.append("; ".join(f"{c['name']}:{c.get('src', 'explicit')}{'/' + c['cls'] if c.get('cls') else ''}" for c in comps) + f" | {einsums} einsums | " +
+                           " -> ".join(f"on{h['on']}{'' if h['copy'] == 'none' else '.' + h['copy']}({','.join(x for x in KINDS if h['flags'][x]) or 'none'};{h['einsum']})" for h in hist))
+        ok, info, calls = _history(desc, hist)
+        ev += calls
+        if not ok:
+            return ev, len(seen), info, samples
+    return ev, len(seen), None, samples
+
+
+# ---------------------------------------------------------------------------------------------- modes
+def _failed(info):
+    return {"failed": True, "input": info, "observed": info["observed"], "required": info["required"]}
+
+
+def _run(seed, thorough):
+    rnd = random.Random(seed)
+    ev, distinct, bad = _sweep(rnd, 250 if thorough else 25)
+    if bad:
+        return _failed(bad)
     ok, info = _case(WITNESS_F6, [ALL, ALL, ALL])
     if not ok:
-        return {"failed": True, "input": info, "observed": info["observed"], "required": info["required"]}
-    ev, _, bad = _sweep(random.Random(p.get("seed", 0)), 30)
+        return _failed(info)
+    ev_b, cases_b, bad = _core(thorough)
     if bad:
-        return {"failed": True, "input": bad, "observed": bad["observed"], "required": bad["required"]}
-    return {"failed": False, "tried": ev + 1}
+        return _failed(bad)
+    ev_c, distinct_c, bad, samples = _random(random.Random(seed * 7919 + 1), 1500 if thorough else 150)
+    if bad:
+        return _failed(bad)
+    samples = ["F6 witness: Memory area 10, area_scale 2, n_parallel_instances 2; three calls", f"core: {cases_b} flag histories on Main PE[Buf MAC] (explicit) and Main(explicit) PE[Buf(RaaamEDRAM) Reg(JiaShiftAdd, mixed) MAC(IntMAC)]"] + samples
+    return {"failed": False, "evaluations": ev + 1 + ev_b + ev_c, "distinct": distinct + 1 + cases_b + distinct_c, "known_finding_hits": 0, "bound": BOUND, "rule": RULE,
+            "exhaustive": True, "samples": samples[:8]}
 
 
 def crosscheck(p):
-    n = 25 if p.get("n", 200) <= 200 else 250
-    ev, distinct, bad = _sweep(random.Random(p.get("seed", 0)), n)
-    if bad:
-        return {"failed": True, "input": bad, "observed": bad["observed"], "required": bad["required"]}
+    return _run(p.get("seed", 0), p.get("n", 200) > 200)
+
+
+def bounded(p):
+    return _run(p.get("seed", 0), p.get("tier", "quick") == "thorough")
+
+
+def replay(p):
     ok, info = _case(WITNESS_F6, [ALL, ALL, ALL])
     if not ok:
-        return {"failed": True, "input": info, "observed": info["observed"], "required": info["required"]}
-    return {"failed": False, "evaluations": ev + 1, "distinct": distinct + 1, "rule": "random architectures (1-3 memories + compute) with random area / leak / energy / throughput, scale factors and n_parallel_instances; call histories of length 2-3 of the real Spec.calculate_component_costs (all kinds, or random flag subsets); a kind calculated by an earlier call must keep its values"}
+        return _failed(info)
+    tried = 1
+    ev, _, bad = _sweep(random.Random(p.get("seed", 0)), 30)
+    if bad:
+        return _failed(bad)
+    tried += ev
+    desc = _core_desc()
+    for hist in _fixed_histories(2):
+        ok, info, _ = _history(desc, hist)
+        tried += 1
+        if not ok:
+            return _failed(info)
+    ev, n, bad, _ = _random(random.Random(p.get("seed", 0) * 7919 + 1), 40)
+    if bad:
+        return _failed(bad)
+    return {"failed": False, "tried": tried + n}
